@@ -313,6 +313,35 @@ def systematic():
                 t = ("try", b, c, ("print", 5) if "f" in shape else None)
                 body = seq([("loop", 3, seq([t, ("print", 6)])), ("print", 7), ("throw", 8)])
                 progs.append([body, ("try", seq([("call", 0), ("print", 9)]), seq([("pexc",)]), None)])
+    # break / continue leaving k = 1, 2, 3 nested try blocks at once (all with catch: leaving a try with finally is an
+    # open class), then a later throw in the same function caught by the caller / by a NEW try of the same function;
+    # try-finally statements outside the jump: around the loop, completed inside the innermost block, in the caller
+    caller = ("try", seq([("call", 0), ("print", 90)]), seq([("pexc",), ("print", 91)]), None)
+    caller_f = ("try", ("try", ("call", 0), None, ("print", 92)), seq([("pexc",)]), None)
+    for ex in (("break",), ("cont",)):
+        for k in (1, 2, 3):
+            for inner in ("plain", "fin_before", "from_catch", "throw_later_iter"):
+                if inner == "plain":
+                    core = seq([("print", 10), ("ifiter", 2, ex), ("print", 11)])
+                elif inner == "fin_before":
+                    core = seq([("try", ("print", 12), None, ("print", 13)), ("ifiter", 2, ex), ("print", 11)])
+                elif inner == "from_catch":
+                    core = ("try", seq([("ifiter", 2, ("throw", 14)), ("print", 15)]), seq([("pexc",), ex]), None)
+                else:
+                    core = seq([("ifiter", 1, ex), ("ifiter", 3, ("nfail",)), ("print", 16)])
+                nest = core
+                for j in range(k):
+                    nest = ("try", nest, seq([("pexc",), ("print", 20 + j)]), None)
+                loop = ("loop", 3, seq([nest, ("print", 30)]))
+                for later in ("caller", "new_try", "around_finally"):
+                    if later == "caller":
+                        body = seq([loop, ("print", 40), ("throw", 41)])
+                    elif later == "new_try":
+                        body = seq([loop, ("try", seq([("print", 42), ("fail",)]), seq([("pexc",), ("print", 43)]), None),
+                                    ("print", 44), ("throw", 45)])
+                    else:
+                        body = seq([("try", seq([loop, ("print", 46), ("throw", 47)]), None, ("print", 48))])
+                    progs.append([body, caller if later != "around_finally" else caller_f])
     return progs
 
 
@@ -446,8 +475,8 @@ def gen_cfg_term(ctx=None):
         with open(os.path.join(yvlib.COQ, "gen", "manifest.json")) as fh:
             m = json.load(fh)["c08_tryarms"]
         b = lambda x: "true" if x else "false"  # noqa
-        return "(cfg_flags %s %s %s %d %s %s %s)" % (
-            b(m["gen_catch_emits_pop"]), b(m["gen_break_pops_handlers"] and m["gen_continue_pops_handlers"]),
+        return "(cfg_flags %s %d %s %d %s %s %s)" % (
+            b(m["gen_catch_emits_pop"]), int(m["gen_break_pops_mode"]),
             b(m["gen_return_in_try_uses_jump_finally"]), int(m["gen_unwind_he_mode"]), b(m["gen_throw_sets_he"]),
             b(m["gen_vmfail_sets_he"]), b(m["gen_nativefail_sets_he"]))
     except Exception as e:  # the translator did not recognise the sources: M = the configuration of the theorems
@@ -953,16 +982,189 @@ DIRECTED = [
 ]
 
 
+def nested_jump_sources():
+    """the same family with `for` loops (outside the mini-language; oracle = the reference interpreter)"""
+    res = []
+    for ex in ("break", "continue"):
+        for k in (1, 2, 3):
+            core = "if v == 2 { r = v; %s; } print(v); " % ex
+            for j in range(k):
+                core = "try { %s} catch c%d { print(\"c%d\"); print(c%d); } " % (core, j, j, j)
+            for later in ('throw "late";', 'try { throw "late2"; } catch z { print(z); } throw "late3";',
+                          'try { [1][3]; } finally { print("fin"); }'):
+                res.append('fn find(items) { var r = nil; for v in items { %sprint("it"); } print(r); %s } '
+                           'try { try { find([1, 2, 3]); } finally { print("cleanup"); } } catch e { print(type(e)); print(e); } '
+                           'print("end");' % (core, later))
+    return res
+
+
+BIG = None
+
+
+def big_programs():
+    """|try block| + |catch clause| across 65535 bytes of bytecode, each part below it (the two 16-bit operands of
+    PushExcHandler are ADDED by the VM): the only consumers of the sum are JumpFinally (return inside the try block) and
+    the exceptional entry of a finally block; expectations by construction (`a = -a;` is 6 bytes of bytecode)"""
+    global BIG
+    if BIG is None:
+        def filler(n):
+            return " ".join(["a = -a;"] * n)
+        BIG = [
+            ('fn work(a) { try { print("try"); %s return "done"; } catch e { print("catch"); %s } finally { print("cleanup"); } '
+             'return "fell"; } try { print(work(1)); } catch e { print("caller"); print(e); } print("after");'
+             % (filler(7000), filler(5000)), "try,cleanup,done,after/D"),
+            ('fn work(a) { try { print("try"); %s throw a; } catch e { print("catch"); print(e); %s return e + 1; } '
+             'finally { print("cleanup"); } return "fell"; } try { print(work(1)); } catch e { print("caller"); print(e); } print("after");'
+             % (filler(9001), filler(3000)), None),
+            ('fn work(a) { try { print("try"); %s return a; } catch e { print("catch"); %s } finally { print("cleanup"); } '
+             'return "fell"; } print(work(5)); print("after");' % (filler(5464), filler(5455)), None),
+            ('fn work(a) { try { print("try"); %s return a; } catch e { print("catch"); %s } finally { print("cleanup"); } '
+             'return "fell"; } print(work(5)); print("after");' % (filler(5400), filler(5400)), "try,cleanup,5,after/D"),
+        ]
+        # return in catch with a finally clause is the open class early_exit_skips_finally: program 2 only throws/catches
+        BIG[1] = ('fn work(a) { try { print("try"); %s throw a; } catch e { print("catch"); print(e); %s } '
+                  'finally { print("cleanup"); } return "fell"; } try { print(work(1)); } catch e { print("caller"); print(e); } '
+                  'print("after");' % (filler(9001), filler(3000)), "try,catch,-1,cleanup,fell,after/D")
+        BIG[2] = (BIG[2][0], "try,cleanup,5,after/D")
+    return BIG
+
+
+def run_big(ctx, stats):
+    progs = big_programs()
+    for prof in ("release", "debug"):
+        recs = yvlib.run_harness(ctx.harness(prof), ["run - " + hx(src) for src, _ in progs], case_timeout_ms=60000)
+        for k, ((src, want), rec) in enumerate(zip(progs, recs)):
+            got = impl_result(rec)
+            if got != want:
+                short = src[:120] + " ...[%d bytes]... " % len(src) + src[-260:]
+                stats["violations"].append({"src": src, "spec": want, "impl": got + " (%s build)" % prof, "m": None, "wire": "",
+                                            "prog": None, "short": short, "big_index": k})
+                break
+    stats["big_try_catch_programs"] = len(progs)
+
+
+# ------------------------------------------------------------------------------------------------
+# one Vm, several runs: a run that ends with an uncaught exception must leave nothing behind that changes how the next
+# programs handle exceptions (harness `repl`): first snippet fails, the later ones are ordinary generated programs
+# outside the classes, compared with S as if each ran on a fresh VM
+FIRST_SNIPPETS = []
+for _site in ('throw "boom";', "nil();", '"12x".to_num();'):
+    FIRST_SNIPPETS += [
+        _site,
+        "fn a9() { %s } fn b9() { a9(); print(1); } b9();" % _site,
+        'try { %s } finally { print("c"); }' % _site,
+        'try { throw 1; } catch e9 { %s }' % _site,
+        "var fb9 = Fiber.new(|| { %s }); fb9.call();" % _site,
+        'fn r9() { try { return 7; } finally { %s } } r9();' % _site,
+    ]
+
+
+def split_snips(rec):
+    parts = []
+    cur = None
+    for l in rec.lines:
+        if l.startswith("SNIP "):
+            cur = []
+            parts.append(cur)
+        elif cur is not None:
+            cur.append(l)
+    return [yvlib.Record(p_) for p_ in parts]
+
+
+def repl_streams(ctx, results, stats, nstreams):
+    base = [r for r in results if r["wf"] and r["cls"] is None and not r["m"].endswith("/S")]
+    if not base:
+        return
+    # programs with finally clauses first: EndFinally is where a leaked flag / pending return shows
+    withfin = [r for r in base if re.search(r"6 [01] 1", r["wire"])]
+    rng = ctx.rng
+    streams = []
+    for k in range(nstreams):
+        first = FIRST_SNIPPETS[k % len(FIRST_SNIPPETS)]
+        later = [rng.choice(withfin if (withfin and rng.random() < 0.8) else base) for _ in range(rng.randint(1, 3))]
+        streams.append((first, later))
+    lines = ["repl - " + " ".join(hx(x) for x in [first] + [r["src"] for r in later]) for first, later in streams]
+    bad = []
+    for prof in ("release", "debug") if ctx.quick() else ("release",):
+        sub = lines if prof == "release" else lines[:18]
+        recs = yvlib.run_harness(ctx.harness(prof), sub, case_timeout_ms=20000)
+        for (first, later), rec in zip(streams, recs):
+            snips = split_snips(rec)
+            if rec.crashed or len(snips) != len(later) + 1:
+                bad.append((first, later, 0, "harness: %s, %d snippets answered" % (rec.crashed, len(snips))))
+                continue
+            if snips[0].result[0] != "err":
+                ctx.broken.append("first snippet of a repl stream did not fail: " + first)
+            for i, (r, sn) in enumerate(zip(later, snips[1:])):
+                got = impl_result(sn)
+                stats["repl_snippets"] = stats.get("repl_snippets", 0) + 1
+                if got != r["spec"]:
+                    bad.append((first, later, i, got))
+                    break
+    stats["repl_streams"] = len(streams)
+    stats["repl_mismatch"] = len(bad)
+    for k, (first, later, i, got) in enumerate(bad[:3]):
+        # shrink: drop the snippets before the failing one if it still fails right after the first snippet
+        r = later[i]
+        rec = yvlib.run_harness(ctx.harness("release"), ["repl - " + hx(first) + " " + hx(r["src"])], case_timeout_ms=20000)[0]
+        sn = split_snips(rec)
+        if len(sn) == 2 and impl_result(sn[1]) != r["spec"]:
+            small, keep, got2 = shrink_repl(ctx, first, r), None, None
+            ctx.violation("a program run after a FAILED run on the same Vm differs from the Spec (outside the known classes)",
+                          input=[first, small["src"]], expected=small["spec"], actual=small["got"], wire=small["wire"],
+                          repl_first=first)
+        else:
+            ctx.violation("a program run after a FAILED run on the same Vm differs from the Spec (outside the known classes)",
+                          input=[first] + [x["src"] for x in later[:i + 1]], expected=r["spec"], actual=got,
+                          wire=";;".join(x["wire"] for x in later[:i + 1]), repl_first=first)
+
+
+def repl_check(ctx, first, rs):
+    """[(r, got)] for the programs rs each run right after `first` on one Vm"""
+    lines = ["repl - " + hx(first) + " " + hx(r["src"]) for r in rs]
+    recs = yvlib.run_harness(ctx.harness("release"), lines, case_timeout_ms=20000)
+    out = []
+    for r, rec in zip(rs, recs):
+        sn = split_snips(rec)
+        out.append((r, impl_result(sn[1]) if len(sn) == 2 else "harness:%s" % rec.crashed))
+    return out
+
+
+def shrink_repl(ctx, first, r, budget=10):
+    cur = dict(r, got=repl_check(ctx, first, [r])[0][1])
+    progress = True
+    while progress and budget > 0:
+        progress = False
+        prog = cur["prog"]
+        cands = list(drop_unused_functions(prog))
+        for fi in range(len(prog)):
+            for a in subterms_replace(prog[fi]):
+                cands.append(prog[:fi] + [a] + prog[fi + 1:])
+        cands.sort(key=lambda p_: len(wire(p_)))
+        batch = cands[:16]
+        if not batch:
+            break
+        budget -= 1
+        ev = [x for x in evaluate(ctx, batch, "replshrink", want_trace=False) if x["wf"] and x["cls"] is None and x["impl"] == x["spec"]]
+        for x, got in repl_check(ctx, first, ev):
+            if got != x["spec"] and len(x["wire"]) < len(cur["wire"]):
+                cur = dict(x, got=got)
+                progress = True
+                break
+    return cur
+
+
 def run_directed(ctx, stats):
     import binascii
     if not refspec_available():
         return
-    recs = yvlib.run_harness(ctx.harness("release"), ["trace - 20000 " + hx(s_) for s_ in DIRECTED], case_timeout_ms=10000)
-    drecs = yvlib.run_harness(ctx.harness("debug"), ["run - " + hx(s_) for s_ in DIRECTED], case_timeout_ms=20000)
-    vals = yvlib.coq_eval(["YV:SpecScripts"], ['run_case 400 [] "%s"' % binascii.hexlify(s_.encode()).decode() for s_ in DIRECTED],
-                          shard_size=2, tag="C08dir", preamble="Open Scope string_scope.\n")
+    directed = DIRECTED + nested_jump_sources()
+    recs = yvlib.run_harness(ctx.harness("release"), ["trace - 20000 " + hx(s_) for s_ in directed], case_timeout_ms=10000)
+    drecs = yvlib.run_harness(ctx.harness("debug"), ["run - " + hx(s_) for s_ in directed], case_timeout_ms=20000)
+    vals = yvlib.coq_eval(["YV:SpecScripts"], ['run_case 400 [] "%s"' % binascii.hexlify(s_.encode()).decode() for s_ in directed],
+                          shard_size=3, tag="C08dir", preamble="Open Scope string_scope.\n")
     stats.setdefault("deco_nontrivial", set())
-    for src, r, dr, v in zip(DIRECTED, recs, drecs, vals):
+    for src, r, dr, v in zip(directed, recs, drecs, vals):
         ref = ref_result(v)
         if ref is None:
             ctx.broken.append("the reference interpreter did not evaluate the directed closure program: " + src[:200])
@@ -973,7 +1175,7 @@ def run_directed(ctx, stats):
             if got != ref:
                 stats["violations"].append({"src": src, "spec": ref, "impl": got, "m": None, "wire": "", "prog": None})
                 break
-    stats["directed_closure_programs"] = len(DIRECTED)
+    stats["directed_closure_programs"] = len(directed)
 
 
 WITNESSES = [("wit_early_exit_break", "early_exit_skips_finally"), ("wit_early_exit_return2", "early_exit_skips_finally"),
@@ -981,7 +1183,8 @@ WITNESSES = [("wit_early_exit_break", "early_exit_skips_finally"), ("wit_early_e
              ("wit_finally_local", "finally_local"), ("wit_he_global_nested", "handling_exception_global"),
              ("wit_he_global_callee", "handling_exception_global"), ("wit_abrupt_finally", "abrupt_exit_from_finally"),
              ("wit_pending_return", "pending_return_survives_throw"),
-             ("wit_catch_pops_outer", None), ("wit_break_in_try", None), ("wit_native_finally", None)]
+             ("wit_catch_pops_outer", None), ("wit_break_in_try", None), ("wit_native_finally", None),
+             ("wit_break_two_tries", None)]
 
 
 def replay_witnesses(ctx, stats):
@@ -1055,6 +1258,32 @@ def run(ctx):
                           input=src, expected=ref, actual=impl, wire=ctx.replay_only["wire"], deco_seed=ctx.replay_only["deco_seed"])
         ctx.cov.update({"evaluations": 1, "distinct_nontrivial": 0, "rule": "replay", "samples": [src]})
         return
+    if ctx.replay_only and ctx.replay_only.get("big_index") is not None:
+        run_big(ctx, stats)
+        finish(ctx, stats, [])
+        return
+    if ctx.replay_only and not ctx.replay_only.get("wire") and isinstance(ctx.replay_only.get("input"), str):
+        # a fixed program (probe / directed family): re-run the recorded source against the recorded expectation
+        for prof in ("release", "debug"):
+            rec = yvlib.run_harness(ctx.harness(prof), ["run - " + hx(ctx.replay_only["input"])], case_timeout_ms=60000)[0]
+            if impl_result(rec) != ctx.replay_only.get("expected"):
+                ctx.violation("fixed program differs from its expectation", input=ctx.replay_only["input"],
+                              expected=ctx.replay_only.get("expected"), actual=impl_result(rec) + " (%s build)" % prof)
+                break
+        ctx.cov.update({"evaluations": 1, "distinct_nontrivial": 0, "rule": "replay", "samples": [ctx.replay_only["input"][:300]]})
+        return
+    if ctx.replay_only and ctx.replay_only.get("repl_first") is not None:
+        first = ctx.replay_only["repl_first"]
+        rs = [x for x in evaluate(ctx, [unwire(w_) for w_ in ctx.replay_only["wire"].split(";;")], "replay", want_trace=False)]
+        recs = yvlib.run_harness(ctx.harness("release"), ["repl - " + " ".join(hx(x) for x in [first] + [r["src"] for r in rs])])
+        sn = split_snips(recs[0])
+        for r, s_ in zip(rs, sn[1:]):
+            if impl_result(s_) != r["spec"]:
+                ctx.violation("a program run after a FAILED run on the same Vm differs from the Spec", input=[first, r["src"]],
+                              expected=r["spec"], actual=impl_result(s_), wire=ctx.replay_only["wire"], repl_first=first)
+                break
+        ctx.cov.update({"evaluations": len(rs), "distinct_nontrivial": 0, "rule": "replay", "samples": [first]})
+        return
     if ctx.replay_only:
         w = ctx.replay_only.get("wire")
         if w:
@@ -1065,6 +1294,7 @@ def run(ctx):
     replay_witnesses(ctx, stats)
     run_probes(ctx, stats)
     run_directed(ctx, stats)
+    run_big(ctx, stats)
     progs = systematic()
     nsys = len(progs)
     n_safe, n_wild = (330, 150) if quick else (7000, 3000)
@@ -1084,6 +1314,7 @@ def run(ctx):
         judge(ctx, r, stats)
     refspec_compare(ctx, results[:nsys + (120 if quick else 3000)], stats, "gen")
     closure_family(ctx, results, stats, 260 if quick else 1500)
+    repl_streams(ctx, results, stats, 72 if quick else 600)
     finish(ctx, stats, results)
 
 
@@ -1134,10 +1365,16 @@ def finish(ctx, stats, results):
     # violations outside the classes: shrink the first, keep at most 5
     viol = stats["violations"]
     stats.setdefault("nontrivial", set())
+    # programs of the mini-language first (they shrink best), then the fixed families
+    viol.sort(key=lambda r: 0 if r.get("prog") else 1)
+    n0 = len(ctx.violations)
     for k, r in enumerate(viol[:5]):
         small = shrink(ctx, r) if (k == 0 and r.get("prog")) else r
+        extra = {"input_summary": small["short"], "big_index": small["big_index"]} if small.get("short") else {}
         ctx.violation("printed trace / outcome differs from the Spec outside the known classes", input=small["src"],
-                      expected=small["spec"], actual=small["impl"], model=small["m"], wire=small["wire"])
+                      expected=small["spec"], actual=small["impl"], model=small["m"], wire=small["wire"], **extra)
+    ctx.violations[0:0] = ctx.violations[n0:]
+    del ctx.violations[len(ctx.violations) - (len(ctx.violations) - n0) // 2:]
     samples = [r["src"] for r in results[-3:]] + [r["src"] for r in results if r["wire"] in stats["nontrivial"]][:2]
     deco_nt = stats.pop("deco_nontrivial", set())
     deco_sample = stats.pop("deco_sample", None)
